@@ -21,6 +21,24 @@ func (u *URL) formatLocal() string {
 	return u.Path
 }
 
+// zeroPortRequired determines whether or not an SCP-style SSH URL with a zero
+// port has to spell that port out in order to be parsed back to the same URL.
+// That's the case if the URL would otherwise be classified as a Docker URL or
+// if the start of its path would be mistaken for a port specification.
+func zeroPortRequired(target, path string) bool {
+	if isDockerURL(target + ":" + path) {
+		return true
+	}
+	for _, r := range path {
+		if r == ':' {
+			return true
+		} else if r < '0' || r > '9' {
+			break
+		}
+	}
+	return false
+}
+
 // formatSSH formats an SSH URL into an SCP-style URL.
 func (u *URL) formatSSH() string {
 	// Create the base result.
@@ -31,8 +49,8 @@ func (u *URL) formatSSH() string {
 		result = fmt.Sprintf("%s@%s", u.User, result)
 	}
 
-	// Add port if present.
-	if u.Port != 0 {
+	// Add port if present (or if required for the URL to be reparsable).
+	if u.Port != 0 || zeroPortRequired(result, u.Path) {
 		result = fmt.Sprintf("%s:%d", result, u.Port)
 	}
 
